@@ -30,7 +30,19 @@ type evalFrame struct {
 	call    *ssa.Call
 	path    *cfgPath
 	phiFrom map[*ssa.BasicBlock]*ssa.BasicBlock
+	// the walker keeps what it stored into struct fields and what each field load saw at its own
+	// program point (loads are evaluated where they stand, not where their value is used)
+	mem  map[memKey]interface{}
+	vals map[ssa.Value]interface{}
 }
+
+type memKey struct {
+	base  ssa.Value
+	field int
+}
+
+// unknownValue marks a field that was overwritten with something the evaluator could not evaluate.
+type unknownValue struct{}
 
 // absPtr is an abstract pointer: only its nil-ness and a tag are known.
 type absPtr struct {
@@ -112,6 +124,24 @@ func (ev *evaluator) eval(fr *evalFrame, v ssa.Value, depth int) (interface{}, b
 		return nil, false
 	}
 	v = fr.resolve(v)
+	if fr.vals != nil {
+		if x, ok := fr.vals[v]; ok {
+			if _, unknown := x.(unknownValue); unknown {
+				return nil, false
+			}
+			return x, true
+		}
+	}
+	if ld, ok := v.(*ssa.UnOp); ok && ld.Op == token.MUL && fr.mem != nil {
+		if fa, ok := ld.X.(*ssa.FieldAddr); ok {
+			if x, ok := fr.mem[memKey{fr.resolve(fa.X), fa.Field}]; ok {
+				if _, unknown := x.(unknownValue); unknown {
+					return nil, false
+				}
+				return x, true
+			}
+		}
+	}
 	if x, ok := ev.leaf(fr, v); ok {
 		return x, true
 	}
@@ -493,6 +523,34 @@ func (ev *evaluator) runFrame(fr *evalFrame, start *ssa.BasicBlock, stop func(b 
 			return nil, "fail"
 		}
 		seen[b] = true
+		for _, ins := range b.Instrs {
+			switch x := ins.(type) {
+			case *ssa.UnOp:
+				if x.Op == token.MUL {
+					if _, isField := x.X.(*ssa.FieldAddr); isField {
+						if fr.vals == nil {
+							fr.vals = map[ssa.Value]interface{}{}
+						}
+						if v, ok := ev.eval(fr, x, 0); ok {
+							fr.vals[x] = v
+						} else {
+							fr.vals[x] = unknownValue{}
+						}
+					}
+				}
+			case *ssa.Store:
+				if fa, isField := x.Addr.(*ssa.FieldAddr); isField {
+					if fr.mem == nil {
+						fr.mem = map[memKey]interface{}{}
+					}
+					if v, ok := ev.eval(fr, x.Val, 0); ok {
+						fr.mem[memKey{fr.resolve(fa.X), fa.Field}] = v
+					} else {
+						fr.mem[memKey{fr.resolve(fa.X), fa.Field}] = unknownValue{}
+					}
+				}
+			}
+		}
 		switch last := b.Instrs[len(b.Instrs)-1].(type) {
 		case *ssa.Return:
 			var out []interface{}
